@@ -495,6 +495,12 @@ class ExcelCompiler:
             for child_cell in self.dep_graph.successors(cell):
                 if child_cell.value is not None:
                     self._reset(child_cell)
+                elif child_cell.address.is_range:
+                    # an empty range node does not mean empty dependants: the
+                    # operands of a range intersection are declared precedents
+                    # which are never read (only the common cells are), so
+                    # they stay empty after the first reset
+                    self._reset(child_cell, force=True)
 
     def value_tree_str(self, address, indent=0):
         iterative_eval_tracker.inc_iteration_number()
